@@ -10,7 +10,7 @@
 #include "colvarproxy_stub.cpp"
 int main(int argc, char **argv) {
   if (argc < 3) return 2; std::string task(argv[1]);
-  char dir[] = "/var/tmp/cvrunaveXXXXXX"; if (!mkdtemp(dir)) return 2; if (chdir(dir)) return 2;
+  char dir[] = "./cvrunaveXXXXXX"; if (!mkdtemp(dir)) return 2; if (chdir(dir)) return 2;
   colvarproxy_stub *proxy = new colvarproxy_stub();
   proxy->set_unit_system("real", false); proxy->set_output_prefix("ra");
   proxy->colvars->setup_input(); proxy->colvars->setup_output();
